@@ -46,7 +46,11 @@ def make_exc(kind, n):
     if kind == 4:
         return BaseExc(n)
     from transitions.core import MachineError
-    return {0: MachineError('scripted'), 1: AttributeError('scripted'), 2: ValueError('scripted')}.get(kind, RuntimeError('scripted'))
+    # kinds >= 6 are builtin exception types the library has no business treating specially; they are all
+    # canonicalised to `Other` (the model's Exc.other)
+    return {0: MachineError('scripted'), 1: AttributeError('scripted'), 2: ValueError('scripted'),
+            7: KeyError('scripted'), 8: IndexError('scripted'), 9: OSError('scripted'),
+            10: LookupError('scripted')}.get(kind, RuntimeError('scripted'))
 
 
 # ---------------------------------------------------------------------------------------------
@@ -401,8 +405,9 @@ class FlatRun(object):
         if out[0] == 'ret':
             self.items.append(('done', cid, 0, int(bool(out[1])), 0))
             return out[1]
-        self.items.append(('done', cid, 1, out[1], out[2]))
-        raise make_exc(out[1], out[2])
+        exc = make_exc(out[1], out[2])
+        self.items.append(('done', cid, 1) + canon_exc(exc))
+        raise exc
 
     # -- API calls ---------------------------------------------------------------------------
     def _api(self, kind, a, b, fn):
